@@ -206,6 +206,66 @@ def c_limit(run, n, terms, meta):
                      limit_predicate(N, items, endless, out, got, pulls)))
 
 
+def run_prefix(N, items, endless, k, route, how="copy"):
+    """k calls of next() on the limited source, then the consumer walks away."""
+    src = Src(items, endless, cap=CAP)
+    eng = engine_of(how, limitIterators=N)
+    ctx = fresh_ctx()
+    got, ending = [], 0
+    try:
+        if route == "int":
+            w = utils.limit_iterable(src, N)
+        elif route == "engine":
+            w = utils.limit_iterable(src, eng)
+        elif route == "convert":
+            w = yaqltypes.Iterable().convert(src, utils.NO_VALUE, ctx, None, eng)
+        else:
+            w = ctx("#iter", eng)(src)
+        it = iter(w)
+        for _ in range(k):
+            got.append(next(it))
+    except StopIteration:
+        ending = 1
+    except exceptions.CollectionTooLargeException:
+        ending = 2
+    return got, ending, src.pulls
+
+
+def prefix_predicate(N, items, endless, k, got, ending, pulls):
+    if N < 0:
+        return "CollectionTooLargeException with a negative limit" if ending == 2 else None
+    if pulls > min(k, N + 1):
+        return "asked for %d items under limit %d: %d items pulled from the source, allowed %d" % (k, N, pulls, min(k, N + 1))
+    more = endless or len(items) > N
+    if (ending == 2) != (k > N and more):
+        return "asked for %d items under limit %d, source %s more than %d items: raised=%s" % (
+            k, N, "has" if more else "does not have", N, ending == 2)
+    if got != (list(items) + list(range(len(items), len(items) + k)))[:len(got)] or len(got) > min(k, N):
+        return "the consumer received items that are not the first items of the source"
+    return None
+
+
+def c_prefix(run, n, terms, meta):
+    for i in range(n):
+        N = run.rng.randrange(-1, 13)
+        L = run.rng.choice([0, 1, max(N - 1, 0), max(N, 0), N + 1, N + 2, run.rng.randrange(0, 16)])
+        endless = run.rng.random() < 0.35
+        k = run.rng.choice([0, 1, 2, max(N - 1, 0), max(N, 0), N + 1, N + 2, N + 4, L, L + 1])
+        items = [run.rng.randrange(-50, 50) for _ in range(L)]
+        route, how = LIMIT_ROUTES[i % 4], how_of(i, 4)
+        got, ending, pulls = run_prefix(N, items, endless, k, route, how)
+        run.case(("prefix", N, tuple(items), endless, k, route, how), nontrivial=k >= N or L >= N)
+        run.count("prefix:%s" % ["asked", "ended", "raised"][ending])
+        if i % 53 == 0:
+            run.sample({"kind": "prefix", "N": N, "items": items, "endless": endless, "asked": k, "got": got,
+                        "ending": ["asked", "ended", "raised"][ending], "pulls": pulls})
+        terms.append("CPrefix %s %s %s %s %s %s %s" % (gal.z(N), gal.zlist(items), gal.boolean(endless), gal.nat(k),
+                                                     gal.zlist(got), gal.z(ending), gal.nat(min(pulls, 4000))))
+        meta.append(("prefix", {"N": N, "items": items, "endless": endless, "k": k, "route": route, "options_route": how},
+                     {"got": got, "ending": ending, "pulls": pulls},
+                     prefix_predicate(N, items, endless, k, got, ending, pulls)))
+
+
 SIZED_MAKERS = [("tuple", tuple), ("list", list), ("set", set), ("frozenset", frozenset),
                 ("dict", lambda l: {x: x for x in l}), ("FrozenDict", lambda l: utils.FrozenDict((x, x) for x in l)),
                 ("items-view", lambda l: {x: x for x in l}.items()), ("range", lambda l: range(len(l)))]
@@ -706,16 +766,127 @@ def c_call(run, n, terms, meta):
 
 
 # --------------------------------------------------------------------------
+# C7: the accumulator loops of distinct / groupBy / toDict / generate(decycle) / memorize
+# --------------------------------------------------------------------------
+ACC_FORMS = ["distinct", "groupBy", "toDict", "generate", "memorize"]
+
+
+def acc_sizes(form, items, M):
+    """Own size of the function's private accumulator: empty, and after each source item
+    (the same operations on the same kind of object, replayed here)."""
+    if form in ("distinct", "generate"):
+        acc, out = set(), []
+        for t in items:
+            acc.add(t)
+            out.append(sys.getsizeof(acc, 0))
+        return sys.getsizeof(set(), 0), out
+    if form == "groupBy":
+        acc, out = {}, []
+        for t in items:
+            acc.setdefault(t % M, []).append(t)
+            out.append(sys.getsizeof(acc, 0))
+        return sys.getsizeof({}, 0), out
+    if form == "toDict":
+        acc, out = {}, []
+        for t in items:
+            acc[t % M] = t
+            out.append(sys.getsizeof(acc, 0))
+        return sys.getsizeof({}, 0), out
+    acc, out = [], []
+    for t in items:
+        acc.append(t)
+        out.append(sys.getsizeof(acc, 0))
+    return sys.getsizeof([], 0), out
+
+
+def run_acc(form, items, M, Q, how):
+    ctx = fresh_ctx()
+    src = Src(items, False, cap=CAP)
+    ctx["src"] = src
+    calls = [0]
+    if form == "generate":
+        def nxt(x):
+            calls[0] += 1
+            return x + 1
+        ctx.register_function(nxt, name="nxt")
+        text = "generate(0, $ < %d, nxt($), decycle => true).len()" % len(items)
+    else:
+        text = {"distinct": "$src.distinct().len()", "groupBy": "$src.groupBy($ mod %d).len()" % M,
+                "toDict": "$src.toDict($ mod %d, $).len()" % M, "memorize": "$src.memorize().len()"}[form]
+    raised, other = False, None
+    try:
+        statement(text, how, memoryQuota=Q, convertOutputData=False).evaluate(context=ctx)
+    except exceptions.MemoryQuotaExceededException:
+        raised = True
+    except Exception as e:
+        other = type(e).__name__
+    steps = (calls[0] + (1 if raised else 0)) if form == "generate" else src.pulls
+    return text, raised, steps, other
+
+
+def acc_predicate(form, Q, a0, sizes, raised, steps, other):
+    if other:
+        return "%s raised %s" % (form, other)
+    if Q <= 0:
+        return "raised without a quota" if raised else None
+    over = [j for j, z in enumerate(sizes) if z > Q]
+    if over and not raised:
+        return "the accumulator of %s reached %d bytes under quota %d and the loop went on" % (form, max(sizes), Q)
+    if over and steps > over[0] + 1:
+        return "the accumulator of %s exceeded the quota %d at step %d but %d steps were made" % (form, Q, over[0] + 1, steps)
+    return None
+
+
+def c_acc(run, n, terms, meta):
+    for i in range(n):
+        form = ACC_FORMS[i % 5]
+        L = run.rng.choice([0, 1, 5, 6, 9, 12, 20, 23, 33, 40, 45])
+        M = run.rng.choice([2, 5, 50])
+        if form == "generate":
+            items = list(range(L))
+        elif form == "distinct":
+            items = [run.rng.randrange(0, max(2, L)) for _ in range(L)]
+        else:
+            items = [run.rng.randrange(0, 60) for _ in range(L)]
+        a0, sizes = acc_sizes(form, items, M)
+        r = run.rng.random()
+        if r < 0.8 and sizes:
+            # floor: the generator objects these functions return are themselves ~250-byte values
+            Q = max(330, run.rng.choice(sizes + [a0]) + run.rng.choice([-1, 0, 0, 1]))
+        elif r < 0.9:
+            Q = run.rng.choice([0, -1])
+        else:
+            Q = run.rng.choice([351, 400, 10 ** 6])
+        how = how_of(i, 5)
+        text, raised, steps, other = run_acc(form, items, M, Q, how)
+        gs = [z - p for z, p in zip(sizes, [a0] + sizes[:-1])]
+        run.case(("acc", form, tuple(items), M, Q, how), nontrivial=bool(sizes) and Q > 0 and a0 - 2 <= Q <= max(sizes) + 2)
+        run.count("acc:%s:%s" % (form, "raise" if raised else "ok"))
+        run.count("options-route:%s" % how)
+        if i % 61 == 0:
+            run.sample({"kind": "acc", "expr": text, "items": items, "Q": Q, "accumulator_sizes": [a0] + sizes,
+                        "raised": raised, "steps": steps})
+        terms.append("CAcc %s %s %s %s %s" % (gal.z(Q), gal.z(a0), gal.zlist(gs), gal.boolean(raised), gal.nat(min(steps, 4000))))
+        meta.append(("acc", {"form": form, "items": items, "M": M, "Q": Q, "options_route": how, "expr": text},
+                     {"raised": raised, "steps": steps, "exception": other, "accumulator_sizes": [a0] + sizes},
+                     acc_predicate(form, Q, a0, sizes, raised, steps, other)))
+
+
+# --------------------------------------------------------------------------
 # C6: trees of calls through the engine (the call protocol: every argument, every result)
 # --------------------------------------------------------------------------
 def gen_tree(rng, depth, env):
     """-> (yaql text, Python value, Gallina cexpr, [sizes of every argument and result inside])"""
     if depth == 0 or rng.random() < 0.3:
-        name = "v%d" % len(env)
         val = rng.choice("xyzw") * rng.randrange(25, 60)
+        size = sys.getsizeof(val, 0)
+        if rng.random() < 0.5:       # a literal: a value that no call has produced (only argument checks see it)
+            return "'%s'" % val, val, "(CVal %s)" % gal.z(size), []
+        name = "v%d" % len(env)      # `$v` is itself a call: '#get_context_data'(name) -> value
         env[name] = val
-        return "$" + name, val, "(CVal %s)" % gal.z(sys.getsizeof(val, 0)), []
-    op = rng.choice(["+", "+", "concat", "*", "str"])
+        nsize = sys.getsizeof("$" + name, 0)
+        return "$" + name, val, "(CApp (fun _ => %s) [(CVal %s)])" % (gal.z(size), gal.z(nsize)), [nsize, size]
+    op = rng.choice(["+", "+", "concat", "*", "str", "strlen", "strlen"])
     if op == "+":
         subs = [gen_tree(rng, depth - 1, env) for _ in range(2)]
         text, val = "(%s + %s)" % (subs[0][0], subs[1][0]), subs[0][1] + subs[1][1]
@@ -727,6 +898,13 @@ def gen_tree(rng, depth, env):
         sub = gen_tree(rng, depth - 1, env)
         subs = [sub, (str(k), k, "(CVal %s)" % gal.z(sys.getsizeof(k, 0)), [])]
         text, val = "(%s * %d)" % (sub[0], k), sub[1] * k
+    elif op == "strlen":     # a SHRINKING function: only the argument check can refuse an over-quota operand
+        sub = gen_tree(rng, depth - 1, env)
+        n = len(sub[1])
+        inner = (sub[0], sub[1], sub[2], sub[3])
+        lenterm = "(CApp (fun _ => %s) [%s])" % (gal.z(sys.getsizeof(n, 0)), sub[2])
+        subs = [("len(%s)" % sub[0], n, lenterm, sub[3] + [sys.getsizeof(sub[1], 0), sys.getsizeof(n, 0)])]
+        text, val = "str(len(%s))" % sub[0], str(n)
     else:
         subs = [gen_tree(rng, depth - 1, env)]
         text, val = "str(%s)" % subs[0][0], subs[0][1]
@@ -760,6 +938,9 @@ def c_chain(run, n, terms, meta):
     for i in range(n):
         env = {}
         text, val, term, pts = gen_tree(run.rng, run.rng.choice([1, 2, 2, 3]), env)
+        if text[0] in "$'" and run.rng.random() < 0.75:
+            env = {}
+            text, val, term, pts = gen_tree(run.rng, 2, env)
         fin = sys.getsizeof(val, 0)
         points = pts + [fin, fin]                    # the argument and the result of '#finalize'
         r = run.rng.random()
@@ -789,12 +970,14 @@ def correspondence(run):
     corpus = load_corpus()
     terms, meta = [], []
     c_limit(run, run.n(400, 6000), terms, meta)
+    c_prefix(run, run.n(300, 4000), terms, meta)
     c_sized(run, 0, terms, meta)
     c_final(run, run.n(900, 16000), terms, meta, corpus)
     c_quota(run, run.n(400, 8000), terms, meta)
     c_mul(run, run.n(800, 16000), terms, meta, corpus)
     c_call(run, run.n(400, 8000), terms, meta)
     c_chain(run, run.n(400, 6000), terms, meta)
+    c_acc(run, run.n(300, 4000), terms, meta)
     # the property's predicate on every case, whatever the model says
     flagged = set()
     for i, (kind, inp, obs, pred) in enumerate(meta):
@@ -812,10 +995,11 @@ def correspondence(run):
                  {"kind": kind, "input": inp, "observed": obs, "case": terms[i][:2000]})
 
 
-THEOREM_OF = {"limit": "C08_limit_pulls", "sized": "C08_limit_sized", "final": "C08_result_width / C08_finalize_terminates",
+THEOREM_OF = {"prefix": "C08_limit_prefix", "limit": "C08_limit_pulls", "sized": "C08_limit_sized", "final": "C08_result_width / C08_finalize_terminates",
               "quota": "C08_quota_threshold", "mul": "C08_repetition_refuses_first / C08_repetition_never_over_quota",
               "call": "C08_quota_threshold (argument and result checks)",
-              "chain": "C08_no_over_quota_value_passed_on / C08_statement_result_fits"}
+              "chain": "C08_no_over_quota_value_passed_on / C08_statement_result_fits",
+              "acc": "C08_accumulator_bounded"}
 
 
 def generalise(text):
@@ -1282,6 +1466,10 @@ def replay(run, data):
                                     i["endless"], i["route"], i.get("options_route", "copy"))
         return limit_predicate(i["N"], i["items"] if isinstance(i["items"], list) else list(range(i["items"])),
                                i["endless"], out, got, pulls) is None
+    if kind == "prefix":
+        i = d["input"]
+        got, ending, pulls = run_prefix(i["N"], i["items"], i["endless"], i["k"], i["route"], i.get("options_route", "copy"))
+        return prefix_predicate(i["N"], i["items"], i["endless"], i["k"], got, ending, pulls) is None
     if kind == "sized":
         i = d["input"]
         obj = dict(SIZED_MAKERS)[i["type"]](list(range(i["len"])))
@@ -1333,6 +1521,11 @@ def replay(run, data):
             return False
         over = i["Q"] > 0 and (i["result_size"] > i["Q"] or max(i["arg_sizes"]) > i["Q"])
         return raised or not over
+    if kind == "acc":
+        i = d["input"]
+        a0, sizes = acc_sizes(i["form"], i["items"], i["M"])
+        text, raised, steps, other = run_acc(i["form"], i["items"], i["M"], i["Q"], i.get("options_route", "copy"))
+        return acc_predicate(i["form"], i["Q"], a0, sizes, raised, steps, other) is None
     if kind == "chain":
         i = d["input"]
         raised, other = eval_chain(i["expr"], i["vars"], i["Q"], i.get("options_route", "copy"))
